@@ -335,6 +335,24 @@ LATER = {
 }
 
 
+ROUND6 = {
+ 'C01': "Round 6: a library built on a program's behalf receives nothing of the program's options (dep_link); symbolic-link copies of generated files (symgen_arg).",
+ 'C02': 'Round 6: as C01 (dep_link, symgen_arg).',
+ 'C03': 'Round 6: extra_compile_deps= (field cdeps: every object of the target).',
+ 'C04': 'Round 6: role finddir (a directory searched by find_files: a new file is picked up, the removed directory does not block the build).',
+ 'C05': 'Round 6: the same source sets as inputs of generated_sources for moc / lex / yacc / rcc / uic.',
+ 'C06': 'Round 6: several commands of one step share a shell (cd, shell variable).',
+ 'C07': 'Round 6: every second project has a generator step with two outputs (source + header).',
+ 'C08': "Round 6: a search with a filter function of the script's own next to a cacheable one.",
+ 'C10': 'Round 6: the first configure into a new build directory interrupted at every mutation point (both backends).',
+ 'C11': 'Round 6: directories matched by extra= are distributed.',
+ 'C13': 'Round 6: every second project is configured with a toolchain file (install dirs overridden on the command line, a variable extended).',
+ 'C16': 'Round 6: a library requested through LDLIBS / LDFLAGS next to every link-side option.',
+ 'C17': 'Round 6: auto_fill with a library that is first the install dependency of another.',
+ 'C19': 'Round 6: submodule directories named by sibling rank (the same string in different directories).',
+}
+
+
 def main():
     props = [json.loads(l) for l in open(os.path.join(VERIF, 'properties.jsonl'))]
     checks = []
@@ -351,7 +369,8 @@ def main():
                 'replay_cmd_template': './check %s --replay {path}' % pid,
                 'engine': 'tlc+harness',
                 'level_claimed': {'category': 'model_checking',
-                                  'text': c['text'] + (' ' + LATER[pid] if pid in LATER else ''),
+                                  'text': c['text'] + (' ' + LATER[pid] if pid in LATER else '') +
+                                          (' ' + ROUND6[pid] if pid in ROUND6 else ''),
                                   'design_ref': 'DESIGN.md section ' + c['design']},
                 'level_note': c['note'],
                 'technique': c['technique'],
